@@ -58,12 +58,12 @@ def handleTab (l : Line) : IO Unit := do
     | none =>
       -- the call sequence moves to an earlier column: the implementation must refuse it
       IO.println s!"obs {id} out=!panic"
-      IO.println s!"spec {id} layout=panic"
+      IO.println s!"spec {id} layout=panic fresh=same"
     | some t =>
       let perm := parseNats (l.getD "perm" "-")
       if !validOrder t.cells perm then
         IO.println s!"obs {id} out=!badperm"
-        IO.println s!"spec {id} layout=ok"
+        IO.println s!"spec {id} layout=ok fresh=same"
       else
         let ordered := applyOrder t.cells perm
         IO.println s!"obs {id} out={(format t ordered).toHex}"
@@ -73,8 +73,8 @@ def handleTab (l : Line) : IO Unit := do
         match l.bytes? "text" with
         | some text =>
           let (v, _) := Spec.Layout.judge text t.cells offs
-          IO.println s!"spec {id} layout={v}"
-        | none => IO.println s!"spec {id} layout=ok"
+          IO.println s!"spec {id} layout={v} fresh=same"
+        | none => IO.println s!"spec {id} layout=ok fresh=same"
 
 /- case <id> kind=kh nf=<fields> nk=<keys> keys=<k;k;…>   k = hex,hex,… (one value per field)
    obs  <id> tree={field:hexvalue:start:len{children}…}
@@ -100,7 +100,7 @@ def handleKh (l : Line) : IO Unit := do
   let lv := (List.range nf).map fun k =>
     let ns := Spec.KeyHeader.specLevel keys k
     if ns.isEmpty then "-" else ",".intercalate (ns.map fun (v, s, n) => s!"{v.toHex}:{s}:{n}")
-  IO.println s!"spec {id} lv={if lv.isEmpty then "-" else "/".intercalate lv}"
+  IO.println s!"spec {id} lv={if lv.isEmpty then "-" else "/".intercalate lv} fresh=same"
 
 /- case <id> kind=e2e text=<hex> csv=<hex> warn=<hex>   (benchstat's two renderings of the same Tables)
    spec <id> agree=ok|… hdr=ok|… layout=ok|… -/
@@ -110,7 +110,7 @@ def strOf (b : Bytes) : String := (String.fromUTF8? (ByteArray.mk b.toArray)).ge
 def handleE2e (l : Line) : IO Unit := do
   match l.bytes? "text", l.bytes? "csv", l.bytes? "warn" with
   | some t, some c, some w =>
-    IO.println s!"spec {l.id} {(Spec.TextCsv.judge (strOf t) (strOf c) (strOf w)).show}"
+    IO.println s!"spec {l.id} {(Spec.TextCsv.judge (strOf t) (strOf c) (strOf w)).show} fresh=same"
   | _, _, _ => pure ()
 
 /- case <id> kind=tbl unit= nf= nk= cols= nr= rows= sum= perm= start=   (cells view of one benchtab.Table, see
@@ -175,7 +175,7 @@ def handleTbl (l : Line) : IO Unit := do
 def handleImplObs (l : Line) : IO Unit := do
   match l.bytes? "text", l.bytes? "csv", l.bytes? "warn" with
   | some t, some c, some w =>
-    IO.println s!"spec {l.id} {(Spec.TextCsv.judge (strOf t) (strOf c) (strOf w)).show}"
+    IO.println s!"spec {l.id} {(Spec.TextCsv.judge (strOf t) (strOf c) (strOf w)).show} fresh=same"
   | _, _, _ => pure ()
 
 def handle (l : Line) : IO Unit := do
